@@ -52,16 +52,16 @@ def _logix(prop, level, qn, tn, directed=False, budget=(180, 1800), extra_rule="
 
 
 PLANS.update({
-    "C01": _logix("C01", "exploration", 6000, 200000),
-    "C02": _logix("C02", "exploration", 6000, 200000),
-    "C03": _logix("C03", "exploration", 6000, 200000, directed=True),
-    "C04": _logix("C04", "exploration", 2500, 60000, directed=True, budget=(180, 1800),
+    "C01": _logix("C01", "exploration", 12000, 200000),
+    "C02": _logix("C02", "exploration", 12000, 200000),
+    "C03": _logix("C03", "exploration", 12000, 200000, directed=True),
+    "C04": _logix("C04", "exploration", 5000, 60000, directed=True, budget=(180, 1800),
                   extra_rule="; directed set: every tag size in [cs-64, cs+64] and around 2cs (3cs thorough) x name length x "
                              "read/write x alone/next to a small tag for cs in {500, 4000}"),
-    "C05": _logix("C05", "exploration", 3000, 80000),
-    "C09": _logix("C09", "exploration", 5000, 150000, directed=True),
+    "C05": _logix("C05", "exploration", 6000, 80000),
+    "C09": _logix("C09", "exploration", 8000, 150000, directed=True),
     "C11": _logix("C11", "exploration", 4000, 100000),
-    "C17": _logix("C17", "exploration", 3000, 80000, directed=True),
+    "C17": _logix("C17", "exploration", 6000, 80000, directed=True),
 })
 
 PLANS["C10"] = {
@@ -90,13 +90,13 @@ GEN_RULE = ("scenario = chassis layout (bare device / CompactLogix / ControlLogi
             "helpers get_plc_name/info, get_module_info(slot), get/set_plc_time under the virtual clock; list_identity and discover "
             "over simulated UDP with drop/duplicate/reorder. distinct = distinct (call kind, transport, outcome, route form, data "
             "type) sequences")
-PLANS["C14"] = {"level": "exploration", "parts": [("generic", "gen", 10000, 400000)], "budget_s": {"quick": 90, "thorough": 900},
+PLANS["C14"] = {"level": "exploration", "parts": [("generic", "gen", 20000, 400000)], "budget_s": {"quick": 90, "thorough": 900},
                 "rule": GEN_RULE, "real": LOGIX_REAL, "stub": LOGIX_STUB,
                 "assumptions": ["a direct UCMM generic message carries the route after the request data by documented design "
                                 "(DESIGN 3.4 rule 2): objects accept trailing bytes and the oracle expects request_data + route",
                                 "unconnected_send=True with route_path=False and bytes ids of length other than 1/2/4 are not generated "
                                 "(DESIGN 6 C14)"]}
-PLANS["C16"] = {"level": "exploration", "parts": [("generic", "gen", 10000, 400000)], "budget_s": {"quick": 90, "thorough": 900},
+PLANS["C16"] = {"level": "exploration", "parts": [("generic", "gen", 16000, 400000)], "budget_s": {"quick": 90, "thorough": 900},
                 "rule": GEN_RULE, "real": LOGIX_REAL, "stub": LOGIX_STUB,
                 "assumptions": ["vendor / product-type NAMES come from the library's own tables (naming dictionary only); ids, "
                                 "widths, order and formatting are the reference's",
@@ -114,7 +114,7 @@ PLANS["C17"]["parts"].append(("lifecycle", "gen", 3000, 80000))
 
 PLANS["C13"] = {
     "level": "fault_enumeration",
-    "parts": [("replyfault", "directed", None, None), ("replyfault", "gen", 20000, 600000)],
+    "parts": [("replyfault", "directed", None, None), ("replyfault", "gen", 30000, 600000)],
     "budget_s": {"quick": 150, "thorough": 1500},
     "rule": ("scenario = request kind (generic connected/UCMM/Unconnected Send, read, fragmented read, write, fragmented write, "
              "read-modify-write, multi-service read/write, symbol-list page, template read, template attributes, register session, "
@@ -134,7 +134,7 @@ PLANS["C13"] = {
 
 PLANS["C18"] = {
     "level": "exploration",
-    "parts": [("slc", "directed", None, None), ("slc", "gen", 10000, 300000)],
+    "parts": [("slc", "directed", None, None), ("slc", "gen", 15000, 300000)],
     "budget_s": {"quick": 90, "thorough": 900},
     "rule": ("scenario = generated SLC data table (O0, I1, S2, B3, T4, C5, N7, F8 + extra N/B/F/L/T/C files up to number 255) + "
              "call list of reads/writes over addresses drawn from the documented grammar (word, /bit, Bf/n, {count}, T/C "
